@@ -114,6 +114,14 @@ listed as a finding.
   cross a window end with the roll-over goroutine parked at its lock site, i.e. stalled for
   999 ns, and R1 (slots handed out *at* the roll-over instant) fired on the unchanged tree;
   the goroutine now runs freely whenever the clock moves.
+* **C11H retry cool-down as version indicator** (first version of the scenario, never
+  committed as failing): the x-lunar-retry-after value of a retried attempt comes from the
+  sequence's stored retry state, not from the policy version of the attempt; the scenario now
+  reads one bit (retry remedy enabled or not) instead.
+* **C08 second update vs. first update's rules**: a second update that legitimately started
+  after the first had released the handler changed disk and behaviour, and R1/R2/R3 of the
+  first update fired; an accepted second update is now excluded from those comparisons and
+  judged by R5 alone.
 * **C03 query requirement without a value**: the first version of the reference demanded that
   any value satisfies a key-only requirement; the engine requires the empty value (its
   "value not specified" branch is dead code, `GetParamValue` never returns nil). The property
@@ -226,6 +234,27 @@ While seeding C05e the sub-agent noted two places where the unchanged tree alrea
 both were reproduced by the C05 check after flow references and flow-level filters were added
 to its generator, and repaired (`83a1f6d` self-referencing flow: stack overflow in the loader;
 `3d2c6f6` status-code filter + early response: nil dereference).
+
+Sixth wave (suffix f), 16 changes: 7 were caught as delivered (C01f, C02f, C04f, C06f, C15f,
+C19f, C20f), C18f by the C11 check, 8 were missed at first. What was changed:
+C03f (literal segments never differed by letter case: "X" next to "x"),
+C12f (no two URLs differing by letter case only),
+C10f (quick tier too thin for "a waiter expires while others stay queued": crowded profile,
+half-second arrival spacing, 4000 quick runs),
+C11f and C05f (the harness entered below the SPOE entry points, so the argument decoding and
+the handler were never run: `routing.VerifProcessRequest/Response` now expose
+`processRequest`/`processResponse`; scenario C11H drives policy mode through them with SPOE
+messages and retried attempts across reloads; C05 decodes header blocks with the gateway's
+own parser, one in six malformed, and loads a DataSanitation flow),
+C17f (one flow only: a second, enclosing flow with processors of the same names),
+C08f (one update at a time: a second update is sent while the first is being handled, rule
+R5),
+C09f (no request was ever held between its clock read and the counter's lock while the clock
+moved: bursts may now be held across a window end; passes under way at that instant may be
+attributed to either window).
+While extending C05 for C05f the check found one more genuine defect of the unchanged tree
+(`8147793`: DataSanitation and TransformAPICall dereferenced the nil parsed URL of a request
+whose URL does not parse).
 
 ### 12.1 Reverting the repairs
 
